@@ -5,6 +5,7 @@
 import CorgiProofs.LinearTags
 import CorgiProofs.LinearSum
 import CorgiProofs.LinearMatmul
+import CorgiProofs.LinearConv
 
 set_option linter.unusedSectionVars false
 set_option linter.unusedVariables false
@@ -24,6 +25,10 @@ def TagShape (tag : OpTag S) (c : List (Tensor S)) (self : Tensor S) (nd : List 
       a.WF ∧ b.WF ∧ Compat la lb = true ∧ (if ta then a1 else a2) = (if tb then b2 else b1) ∧
       (∀ d ∈ cc.dims, 1 ≤ d) ∧ Fits cc.dims nd = true ∧
       nd = bdims la lb ++ [if ta then a2 else a1, if tb then b1 else b2]
+  | .unroll D R C sr sc fr fc => ∃ a B, c = [a] ∧ a.dims = B ++ [D, R, C] ∧ a.WF ∧ fr ≤ R ∧ fc ≤ C ∧ 1 ≤ fr ∧ 1 ≤ fc ∧
+      1 ≤ sr ∧ 1 ≤ sc ∧ nd = B ++ [((R - fr) / sr + 1) * ((C - fc) / sc + 1), D * (fr * fc)]
+  | .expand => ∃ a B w f rC cC, c = [a] ∧ a.dims = B ++ [w, f] ∧ a.WF ∧ rC * cC = w ∧ 1 ≤ rC ∧ 1 ≤ cC ∧
+      nd = B ++ [f, rC, cC]
   | _ => False
 
 variable [AddLaws S] [MulLaws S]
@@ -64,8 +69,14 @@ theorem vjp_lin (tag : OpTag S) (c : List (Tensor S)) (self : Tensor S) (t : Lis
     | [f0, f1, f2], _ =>
       have := vjp_lin_matmul ta tb a b cc self f0 f1 f2 la lb a1 a2 b1 b2 hda hdb hwa hwb hc hin hcc hfc
       simpa using this
-  | unroll d r cc sr sc fr fc => exact hs.elim
-  | expand => exact hs.elim
+  | unroll D R C sr sc fr fc =>
+    obtain ⟨a, B, rfl, hda, hwa, h1, h2, h3, h4, h5, h6, rfl⟩ := hs
+    obtain ⟨f0, rfl⟩ := one ht
+    exact vjp_lin_unroll a self f0 B D R C sr sc fr fc hda hwa h1 h2 h3 h4 h5 h6
+  | expand =>
+    obtain ⟨a, B, w, f, rC, cC, rfl, hda, hwa, h1, h2, h3, rfl⟩ := hs
+    obtain ⟨f0, rfl⟩ := one ht
+    exact vjp_lin_expand a self f0 B w f rC cC hda hwa h1 h2 h3
 
 
 end Corgi
